@@ -1,6 +1,6 @@
 (* C19 — property theorems only.  Each is closed by [exact <lemma>] and followed by
    Print Assumptions; the statements are pinned here so they cannot be quietly weakened. *)
-From FB Require Import C19.Model C19.Theory C19.TheoryCoord C19.TheoryPom C19.TreeBasics C19.TreeBfs C19.TreeMediation C19.TreeOrder C19.TreeTheorems.
+From FB Require Import C19.Model C19.Acyclic C19.Theory C19.TheoryCoord C19.TheoryPom C19.TheoryFuel C19.TreeBasics C19.TreeBfs C19.TreeMediation C19.TreeOrder C19.TreeTheorems.
 From Coq Require Import Sorting.Sorted.
 
 (* the scope table in the source (regenerated into ScopeGen.v on every run) is Maven's documented table *)
@@ -167,6 +167,19 @@ Theorem C19_fuel_monotone : forall n m fs rs roots out, (n <= m)%N ->
   get_maven_dependencies_fuel (N.to_nat n) fs rs roots = Ok out -> get_maven_dependencies_fuel (N.to_nat m) fs rs roots = Ok out.
 Proof. exact fuel_monotone. Qed.
 Print Assumptions C19_fuel_monotone.
+
+(* in a universe that passes the (decidable) rank check -- every document that could be served for
+   something a POM refers to has a smaller rank than the POM's own document -- any fuel above the
+   number of documents gives the model's answer, an error included: Err is then never "out of fuel" *)
+Theorem C19_fuel_suffices : forall fs rs ranks roots f,
+  acyclic_check fs rs ranks = true -> (length fs < f)%nat ->
+  get_maven_dependencies_fuel f fs rs roots = get_maven_dependencies fs rs roots.
+Proof. exact fuel_suffices. Qed.
+Print Assumptions C19_fuel_suffices.
+
+Theorem C19_acyclic_example : acyclic_check ex_files [mkResolver [114%N] [114%N]] ex_ranks = true.
+Proof. exact acyclic_example. Qed.
+Print Assumptions C19_acyclic_example.
 
 (* ---- non-vacuity ---- *)
 Theorem C19_examples :
